@@ -87,6 +87,9 @@ def _binop(op, l, r):
     if isinstance(op, ast.Div):
         if isinstance(r, sp.MatrixBase) and not isinstance(l, sp.MatrixBase):
             return r.applyfunc(lambda x: l / x)     # numpy: element-wise
+        if isinstance(r, sp.MatrixBase) and isinstance(l, sp.MatrixBase):
+            # numpy divides element-wise with broadcasting; the matrix model has no such operation
+            raise Unsupported("element-wise division of two arrays (%s / %s)" % (l.shape, r.shape))
         return l / r
     if isinstance(op, ast.Pow):
         return l ** r
